@@ -307,6 +307,22 @@ func runDkvTrace(c lib.Case) []string {
 				s.mu.Unlock()
 				break
 			}
+		case "scanpark":
+			s.mu.Lock()
+			s.holdRead = true
+			s.mu.Unlock()
+			res := make(chan string, 1)
+			pfx := lib.UnHex(f[1])
+			go func() { res <- showScanEntries(db, pfx) }()
+			if s.waitParked("read") != nil {
+				readRes = res
+				out = append(out, "parked")
+			} else {
+				s.mu.Lock()
+				s.holdRead = false
+				s.mu.Unlock()
+				out = append(out, "timeout")
+			}
 		case "resume":
 			if readRes == nil {
 				out = append(out, "no-reader")
@@ -484,7 +500,58 @@ func c07Val(r *lib.Rng) []byte {
 	}
 }
 
+// genDkvRanged: a larger ordered key space loaded mostly in ascending order, then overwrites/deletes inside a
+// narrow moving window, with background steps following closely: multi-table deeper levels whose key ranges are
+// only partly touched by the next level-0 tables.
+func genDkvRanged(r *lib.Rng, n int) []string {
+	var ops []string
+	nkeys := r.Range(24, 60)
+	key := func(i int) []byte { return []byte{0x40 + byte(i/8), byte(0x30 + i%8)} }
+	val := func() []byte { return r.Bytes(r.Range(12, 40)) }
+	bg := func() {
+		for i := r.Range(1, 5); i > 0; i-- {
+			ops = append(ops, lib.Pick(r, []string{"bg f", "bg f", "bg c", "bg c", "bg c"}))
+		}
+	}
+	for i := 0; i < nkeys; i++ {
+		ops = append(ops, fmt.Sprintf("put %s %s", lib.Hex(key(i)), lib.Hex(val())))
+		if r.Chance(1, 2) {
+			bg()
+		}
+	}
+	for i := 0; i < 12; i++ {
+		ops = append(ops, lib.Pick(r, []string{"bg f", "bg c", "bg c"}))
+	}
+	w := r.Intn(nkeys)
+	for len(ops) < n+nkeys {
+		if r.Chance(1, 12) {
+			w = r.Intn(nkeys)
+		}
+		k := key((w + r.Intn(4)) % nkeys)
+		switch x := r.Intn(100); {
+		case x < 50:
+			ops = append(ops, fmt.Sprintf("put %s %s", lib.Hex(k), lib.Hex(val())))
+		case x < 58:
+			ops = append(ops, "del "+lib.Hex(k))
+		case x < 75:
+			ops = append(ops, "get "+lib.Hex(key(r.Intn(nkeys))))
+		case x < 80:
+			ops = append(ops, "scan "+lib.Hex(key(r.Intn(nkeys))[:1]))
+		default:
+			bg()
+		}
+	}
+	ops = append(ops, "scan -")
+	for i := 0; i < nkeys; i++ {
+		ops = append(ops, "get "+lib.Hex(key(i)))
+	}
+	return ops
+}
+
 func genDkvOps(r *lib.Rng, n int, parkReads bool) []string {
+	if r.Chance(2, 5) {
+		return genDkvRanged(r, n)
+	}
 	var ops []string
 	for len(ops) < n {
 		switch x := r.Intn(100); {
@@ -506,7 +573,15 @@ func genDkvOps(r *lib.Rng, n int, parkReads bool) []string {
 			ops = append(ops, "bg c")
 		default:
 			if parkReads {
-				ops = append(ops, "getpark "+lib.Hex(c07Key(r)))
+				if r.Chance(1, 3) {
+					p := c07Key(r)
+					if r.Chance(1, 3) {
+						p = nil
+					}
+					ops = append(ops, "scanpark "+lib.Hex(p))
+				} else {
+					ops = append(ops, "getpark "+lib.Hex(c07Key(r)))
+				}
 				for i := r.Intn(4); i > 0; i-- {
 					ops = append(ops, lib.Pick(r, []string{"bg f", "bg c"}))
 				}
@@ -540,6 +615,7 @@ func c07Fixed() []lib.Case {
 		{Header: "M C07 mem=200 l0=100", Ops: []string{"put " + k + " 01", "put " + z + " " + big, "del " + k, "scan " + k, "get " + k}, Tags: []string{"regress-D4"}},
 		// D5: flush commit between the two phases of a read
 		{Header: "M C07 mem=200 l0=100", Ops: []string{"put " + k + " 01", "put " + z + " " + big, "bg f", "getpark " + k, "bg f", "resume", "get " + k}, Tags: []string{"regress-D5"}},
+		{Header: "M C07 mem=200 l0=100", Ops: []string{"put " + k + " 01", "put " + z + " " + big, "bg f", "scanpark " + k, "bg f", "resume", "scan " + k}, Tags: []string{"regress-D5"}},
 	}
 }
 
@@ -558,7 +634,8 @@ func propC07() *lib.Prop {
 		ID:       "C07",
 		Corr:     "Model/Lsm.lean transition system ↔ real dkv.DB (hook-scheduled flush/compaction commits, two-phase reads)",
 		Rule:     "trace validation: generated schedules of put/del/get/scan/background steps on a real dkv.DB with tiny memtables; every read is compared with the model and with the map spec; non-trivial = at least one flush commit or compaction happened in the trace",
-		FeedImpl: true,
+		FeedImpl:        true,
+		SpecIndependent: true,
 		NumCases: func(tier string) int {
 			if tier == "thorough" {
 				return 4000
